@@ -95,6 +95,13 @@ CHECKS.update({
    note="Trusted: Python's json module; slot table from docs/api/formatters.md; accept-set for the cut at a surrogate pair (99 units / U+FFFD / 100 code points / pair kept whole), never a lone surrogate."),
 })
 
+CHECKS.update({
+ "C15": dict(engine="seqx", level=EX, design="§7 C15",
+   technique="bounded-exhaustive enumeration of rule lists (all sequences up to the length bound over an alphabet of well-formed, typed, wildcard, metacharacter and malformed rule lines, all separator styles) x categories x types on the real CategoryFilter; independent glob-based reference, QLoggingCategory as second opinion",
+   text="Every rule list up to the bound over ~340 rule lines (and longer lists over a 24-line sub-alphabet) is given to the real CategoryFilter and probed with 28 categories x 5 types; every verdict must equal ordered evaluation by an independent parser and glob matcher: last matching well-formed rule decides, default pass, typed rules apply to their type only, malformed lines are ignored, ';' and newline separate. Wherever Qt's own QLoggingCategory supports the rules it must agree with the reference.",
+   note="Trusted: the reference (engine/seqx/c15.cpp, from the property text); printable-ASCII categories; lines with several '=' or upper-case booleans left out."),
+})
+
 PENDING = {}
 
 def main():
